@@ -37,7 +37,7 @@ def workloads(tier):
         s = _series(m0, steps)
         if s is not None:
             for cfg in cfgs:
-                W.append((label + ('' if cfg.get('backup') == 'never' else ' [backup %s]' % cfg.get('backup')), s, dict(cfg, quiet=True)))
+                W.append((label + ('' if cfg.get('backup') == 'never' else ' [backup %s%s]' % (cfg.get('backup'), '' if cfg.get('backup_count') is None else ' count %s' % cfg['backup_count'])), s, dict(cfg, quiet=True)))
     fails = [(tq.t_modfail,), (tq.t_partial,), (tq.t_delete_mismatch,)]
     laters = [(tq.t_mod,), (tq.t_delete, False), (tq.t_delete, True), (tq.t_mode, True), (tq.t_mod_ins_del,)]
     both = ({'backup': 'never'}, {'backup': 'always'})
@@ -56,6 +56,9 @@ def workloads(tier):
     add('two failures', [[(tq.t_mod, 'f')], [(tq.t_modfail, 'd/g')], [(tq.t_modfail, 'f')]])
     add('two failures, later one first in queue', [[(tq.t_mod, 'f'), (tq.t_mod, 'd/g')], [(tq.t_mod, 'f')], [(tq.t_modfail, 'f')], [(tq.t_modfail, 'd/g')]])
     add('failing patch spans two workers', [[(tq.t_mod, 'f')], [(tq.t_modfail, 'd/g'), (tq.t_partial, 'f')], [(tq.t_mod, 'd/h')]], both)
+    # backup window counted back from the failing patch (the window must be the same in every worker)
+    add('failure after three patches, --backup-count 1', [[(tq.t_mod, 'f')], [(tq.t_mod, 'd/g')], [(tq.t_mod, 'f', 1, 0, 4), (tq.t_mod, 'd/h')], [(tq.t_modfail, 'd/g')], [(tq.t_mod, 'f', 1, 0, 0)]],
+        ({'backup': 'always', 'backup_count': 1}, {'backup': 'onfail', 'backup_count': 2}))
     add('failing patch: one file fails, sibling succeeds', [[(tq.t_partial, 'd/g'), (tq.t_mod, 'f'), (tq.t_mod, 'd/h')]])
     # directories shared between workers: one empties a directory, another creates/modifies in it
     add('delete d/g || modify d/h', [[(tq.t_delete, 'd/g', False), (tq.t_mod, 'd/h')]], both)
